@@ -232,13 +232,31 @@ def check_slots(ctx):
     else:
         ctx.violation(rule, ci_, 'Field._compile_impl', 'the field\'s own slot is not declared', ci_.node.lineno, clause='b')
     dy = fld.methods.get('_describe_yourself')
-    src = unparse(dy.node)
-    need = ["self.descriptor_name = field_name", "self.field_name = '_described_%s' % field_name", 'self.descriptor.descriptor_name = self.descriptor_name', 'self.descriptor.real_field_name = self.field_name']
-    missing = [n for n in need if n not in src]
-    if not missing:
+    # on the path of a described field: the public name is kept as descriptor_name, the field
+    # moves to the hidden name "_described_<name>", the descriptor is told both names
+    P = dy.node.args.args[1].arg if len(dy.node.args.args) > 1 else 'field_name'
+    want = {('self', 'descriptor_name'): {P}, ('self', 'field_name'): {"fmt('_described_{}', %s)" % P},
+            ('self.descriptor', 'descriptor_name'): {'self.descriptor_name', P},
+            ('self.descriptor', 'real_field_name'): {'self.field_name', "fmt('_described_{}', %s)" % P}}
+    seen_described = False
+    missing = None
+    for p in repo.walker(max_paths=ctx.max_paths).paths(dy.node, cls=fld):
+        if p.raises() or 'self.descriptor' not in gtexts(p):
+            continue
+        seen_described = True
+        got = {}
+        for e in p.effects:
+            if e.kind == 'store_attr':
+                got[(canon(e.obj), e.name)] = {canon(e.value)} | ({canon(e.raw)} if e.raw is not None else set())
+        miss = ['%s.%s' % k for k, v in want.items() if not (got.get(k, set()) & v)]
+        if miss:
+            missing = miss
+    if seen_described and not missing:
         ctx.holds(rule, dy, 'described field: hidden name "_described_<name>", descriptor told both names', 'the descriptor and the field agree on the slots', dy.node.lineno, clause='b')
+    elif not seen_described:
+        ctx.undecided(rule, dy, '_describe_yourself', 'no path is guarded by self.descriptor', dy.node.lineno, clause='b')
     else:
-        ctx.violation(rule, dy, '_describe_yourself', 'missing: %s' % missing, dy.node.lineno, clause='b')
+        ctx.violation(rule, dy, '_describe_yourself', 'on the described path these are not set as expected: %s' % missing, dy.node.lineno, clause='b')
     # (c) collection and getters
     fi = m['collect_sync_methods_from_field_descriptors']
     # every described field contributes its sync_before_pack to the before-pack list and its
